@@ -3,7 +3,7 @@
    Model: Model/GC.v (collect() call by call); normalize_path / marker fallback / constants are
    REGENERATED from garbage_collector.py and transaction.py (Gen/GenNorm.v) on every run. *)
 From Coq Require Import ZArith String Ascii List Bool.
-Require Import DS.Model.PyStr DS.Gen.GenNorm DS.Gen.GenGCLog DS.Model.GC DS.Model.GCHist DS.Model.LogConf DS.Model.GCConf DS.Proofs.GCNormProofs DS.Proofs.GCAcceptProofs DS.Proofs.GCProofs DS.Proofs.GCLiveProofs DS.Proofs.GCHistProofs DS.Proofs.GCConfProofs.
+Require Import DS.Model.PyStr DS.Gen.GenNorm DS.Gen.GenGCLog DS.Model.GC DS.Model.GCHist DS.Model.GCHistFS DS.Model.LogConf DS.Model.GCConf DS.Proofs.GCNormProofs DS.Proofs.GCAcceptProofs DS.Proofs.GCProofs DS.Proofs.GCLiveProofs DS.Proofs.GCHistProofs DS.Proofs.GCHistFSProofs DS.Proofs.GCConfProofs.
 Import ListNotations.
 Open Scope string_scope.
 Open Scope Z_scope.
@@ -47,97 +47,91 @@ Print Assumptions C05_no_abort.
 (* After ANY sequential history -- commits (append / multi-operation / delete_files with any path spelling), expiries,
    snapshot deletions, open transactions, planted orphans, arbitrary file ages, and collections with any table location,
    grace period, clock, abandonment timeout and ANY fault oracle -- the store is in writer form and every retained
-   snapshot is fully present: its manifest list, every manifest in it, every data file they name.  No bound on length. *)
-Theorem C05_history : forall ops : list hop,
-  let h := run_hist ops in
+   snapshot is fully present: its manifest list, every manifest in it, every data file they name.  No bound on length.
+   The machine (Model/GCHistFS.v) runs over a backend that may have SEVERAL spellings of one key: `canon` is the backend's key
+   function (a filesystem resolves "data//f", "data/./f", "data/x/../f" to data/f; S3 keys are literal), `normpath` is
+   posixpath.normpath, both ABSTRACT; a commit's existence check goes through canon, its acceptance is the REGENERATED guard of
+   Transaction.append_files over normpath, the collector compares strings.  The only hypothesis is the law relating the two. *)
+Theorem C05_history : forall (normpath canon : string -> string), (forall s, normpath s = s -> canon s = s) ->
+  forall ops : list hop,
+  let h := run_hist_fs normpath canon ops in
   wf_store (h_lists h) (h_store h) /\ forall l, In l (h_lists h) -> snapshot_present (h_store h) l.
-Proof. exact history_invariant. Qed.
+Proof. exact history_invariant_fs. Qed.
 Print Assumptions C05_history.
+
+(* ... and the law is what the canonical-spelling half of the guard is for.  With that half erased (normpath := the identity: every
+   spelling is "canonical") on a filesystem (canon := squeeze, "//" collapsed) the statement is FALSE: commit data/a, re-commit it
+   under the entry "data//a" (accepted; the filesystem finds the file), drop the first snapshot, collect -- the string comparison
+   deletes data/a and the retained snapshot names a file the backend no longer has. *)
+Theorem C05_alias_spelling_refuted :
+  let h := run_hist_fs no_normpath squeeze alias_ops in
+  In (man_key "l2") (h_lists h) /\ ~ snapshot_present_fs squeeze (h_store h) (man_key "l2").
+Proof. exact alias_spelling_refuted. Qed.
+Print Assumptions C05_alias_spelling_refuted.
 
 (* The generic commit step of the history machine is not vacuous: the append of Table.append_records -- new data file,
    new manifest naming it under any of its three canonical spellings, new list carrying over ALL manifests of the current
-   snapshot -- with fresh (uuid) names always passes the step's side conditions, from every state. *)
-Theorem C05_append_commits : forall (h : hstate) (sid : Z) (name : string) (sp : nat) (mname lname : string) (mt : Z),
+   snapshot -- with fresh (uuid) names that normpath leaves alone always passes the step's side conditions, from every state. *)
+Theorem C05_append_commits : forall (normpath canon : string -> string), (forall s, normpath s = s -> canon s = s) ->
+  forall (h : hstate) (sid : Z) (name : string) (sp : nat) (mname lname : string) (mt : Z),
+  normpath (data_key name) = data_key name ->
   lookup (data_key name) (h_store h) = None -> lookup (man_key mname) (h_store h) = None -> lookup (man_key lname) (h_store h) = None ->
   mname <> lname ->
   match op_append h sid name sp mname lname mt with
-  | HCommit _ nd nm kept ln lmt _ => valid_commit h nd nm kept ln lmt = true
+  | HCommit _ nd nm kept ln lmt _ => valid_commit_fs normpath canon h nd nm kept ln lmt = true
   | _ => False
   end.
-Proof. exact op_append_valid. Qed.
+Proof. exact op_append_valid_fs. Qed.
 Print Assumptions C05_append_commits.
 
-(* The writer-side fact the two theorems above assume about manifest entries (wf_store: a data file lives under data/) is what
-   Transaction.append_files demands of every file it queues: append_accepts_path is REGENERATED from the source on every run
-   (the path guards applied unconditionally to every file of the call; posixpath.normpath is a parameter) and implies it, for
-   every normpath.  The history machine's commit step (GCHist.valid_commit) accepts an entry exactly by this predicate, so
-   C05_history's invariant is re-tied to the source text.  On a tree whose append_files has no such guard the generated
-   predicate does not imply it (a data file accepted at metadata/manifests/f or metadata/inflight/f.inflight is deleted by the
-   manifest sweep / the abandoned-marker sweep while snapshots reference it), and this theorem and C05_history do not compile. *)
+(* What the history machine's commit step takes from the source: append_accepts_path is REGENERATED from Transaction.append_files on
+   every run (the path guards applied unconditionally to every file of the call; posixpath.normpath is a parameter).  BOTH halves are
+   used: (1) an accepted entry names a file under data/ (the writer-side fact wf_store demands: on a tree without it a data file
+   accepted at metadata/manifests/f or metadata/inflight/f.inflight is deleted by the manifest sweep / the abandoned-marker sweep
+   while snapshots reference it); (2) an accepted entry is spelled canonically, normpath rel = rel -- which with the law of
+   C05_history makes the backend's key the literal string the collector compares.  On a tree whose append_files lacks either
+   conjunct this theorem, and with it C05_history, does not compile. *)
 Theorem C05_acceptance_regenerated : forall (normpath : string -> string) (e : string),
-  append_accepts_path normpath e = true -> wf_data_ref e.
-Proof. exact accepts_under_data. Qed.
+  append_accepts_path normpath e = true -> wf_data_ref e /\ normpath (resolve e) = resolve e.
+Proof. exact accepts_both_halves. Qed.
 Print Assumptions C05_acceptance_regenerated.
 
-(* --- process-wide configuration (Model/LogConf.v, Model/GCConf.v; Gen/GenGCLog.v is REGENERATED on every run and fails closed
-   when garbage_collector.py uses its logger for anything but logging statements with purely observing arguments, or reads
-   the environment) --- *)
+(* --- process-wide configuration: COUNTED SOURCE FACTS (Gen/GenGCLog.v is REGENERATED on every run) --- *)
 
-(* What a collection does to the store does not depend on the process-wide configuration: after ANY history of configuration
-   events (DataShardLogger.set_level, setLevel on the root / library / module logger, logging.disable, environment changes) from
-   ANY starting configuration, the collector's result is gc_run's -- so C05_gc_safe / C05_gc_live / C05_no_abort / C05_history
-   speak about every configuration --, the records it may emit come from the regenerated table of its logging statements at
-   enabled levels only, and it reads no environment variable. *)
-Theorem C05_conf_independent : forall (evs : list conf_ev) (c0 : logconf) (tp : string) (grace now timeout : Z) (o : oracle) (snaps : list string) (st : store),
-  fst (gc_run_conf (conf_run evs c0) tp grace now timeout o snaps st) = gc_run tp grace now timeout o snaps st
-  /\ (forall s, In s (snd (gc_run_conf (conf_run evs c0) tp grace now timeout o snaps st)) ->
-        In s GC_LOG_SITES /\ enabled (conf_run evs c0) (snd s) = true)
-  /\ gc_env_view (conf_run evs c0) = [].
-Proof. exact gc_conf_independent. Qed.
-Print Assumptions C05_conf_independent.
+(* gc_run (every theorem above) has no configuration input.  What justifies that is the source text, stated here as what the
+   regenerated tables ARE -- not a theorem about gc_run: in garbage_collector.py (lexical check of the whole module, fail closed) and
+   in every function of file_manager / metadata_manager / storage_backend / s3_consistency / integrity / disk_utils reachable by name
+   from it (GC_REACH; counting scan) there is no use of a logger other than logging statements whose arguments only observe, no use
+   of the logging module, no read of os.environ / os.getenv.  Outside that scope (third-party packages, dynamic dispatch, __str__ of
+   logged objects) nothing is claimed.  The differential side: every collection of every generated history runs under a drawn
+   configuration and is predicted without it. *)
+Theorem C05_conf_not_consulted : GC_CONF_READS = [] /\ GC_ENV_READS = [] /\ GC_ENV_VARS = [].
+Proof. exact conf_not_consulted. Qed.
+Print Assumptions C05_conf_not_consulted.
 
-(* C05_gc_safe, stated for the collector under every configuration history. *)
-Theorem C05_gc_safe_any_conf : forall (evs : list conf_ev) (c0 : logconf) (tp : string) (grace now timeout : Z) (snaps : list string) (st : store),
-  wf_store snaps st ->
-  forall k, In k (r_deleted (fst (gc_run_conf (conf_run evs c0) tp grace now timeout no_faults snaps st))) ->
-    ~ referenced snaps st k /\ ~ live_target now timeout st k /\ exists ob, lookup k st = Some ob /\ mtime ob < now - grace.
-Proof. exact gc_safe_any_conf. Qed.
-Print Assumptions C05_gc_safe_any_conf.
-
-(* Which configurations reach a level-guarded statement.  (1) DataShardLogger.set_level(l) from every earlier configuration in
-   which the module logger inherits: exactly the levels >= l that logging.disable does not mask.  (2) Once logging.disable(d) is
-   in force no later level change anywhere in the tree enables a level <= d: the reason a harness that silences the library
-   with logging.disable(CRITICAL) can never see a DEBUG-only behaviour, and why the oracle histories now run under drawn
-   configurations with the records written to a sink instead.  (3) The module logger's own level decides, whatever the
-   library-level events around it. *)
-Theorem C05_set_level_enables : forall (c : logconf) (l lvl : Z), l <> NOTSET -> lc_mod c = NOTSET ->
-  (enabled (conf_step c (ESetLevel l)) lvl = true <-> lc_disable c < lvl /\ l <= lvl).
-Proof. exact set_level_enables. Qed.
-Print Assumptions C05_set_level_enables.
-
-Theorem C05_disable_masks : forall (evs : list conf_ev) (c : logconf) (d lvl : Z),
-  forallb (fun e => negb (is_disable e)) evs = true -> lvl <= d ->
-  enabled (conf_run evs (conf_step c (EDisable d))) lvl = false.
-Proof. exact disable_masks. Qed.
-Print Assumptions C05_disable_masks.
-
-Theorem C05_mod_level_wins : forall (evs : list conf_ev) (c : logconf) (l lvl : Z), l <> NOTSET ->
-  forallb (fun e => match e with EModLevel _ | EDisable _ => false | _ => true end) evs = true ->
-  (enabled (conf_run evs (conf_step c (EModLevel l))) lvl = true <-> lc_disable c < lvl /\ l <= lvl).
-Proof. exact mod_level_wins. Qed.
-Print Assumptions C05_mod_level_wins.
-
-(* Non-vacuity: the default configuration enables INFO and not DEBUG; set_level(DEBUG) enables every statement of the collector,
-   among them one at DEBUG; under logging.disable(CRITICAL) nothing is emitted even after set_level(DEBUG); an application that
-   clears the library level and sets the root logger to DEBUG reaches DEBUG too. *)
+(* Non-vacuity: the scan reaches the storage calls of the collector in both backends and the metadata read path, finds logging
+   statements there (some at DEBUG), and DOES see environment reads in the scope modules -- in create_storage_backend, which the
+   collector does not reach; the collector's own table has a DEBUG-only statement, enabled by set_level(DEBUG) and by nothing in
+   the default configuration (Proofs/GCConfProofs.v has the arithmetic of Model/LogConf.v as lemmas). *)
 Example C05_conf_nonvacuous :
-  enabled conf_default INFO = true /\ enabled conf_default DEBUG = false
+  In ("storage_backend", "LocalStorageBackend.delete_file") GC_REACH /\ In ("storage_backend", "S3StorageBackend.list_files") GC_REACH
+  /\ In ("metadata_manager", "MetadataManager.refresh") GC_REACH /\ In ("file_manager", "FileManager.read_manifest_file") GC_REACH
+  /\ ~ In ("storage_backend", "create_storage_backend") GC_REACH
+  /\ In ("storage_backend", "create_storage_backend", "DATASHARD_STORAGE_TYPE") GC_UNREACHED_ENV_READS
+  /\ In ("storage_backend", "S3StorageBackend.read_file", DEBUG) GC_CALLEE_LOG_SITES
+  /\ In ("_gc_prefix", DEBUG) GC_LOG_SITES
   /\ may_emit (conf_run [ESetLevel DEBUG] conf_default) = GC_LOG_SITES
-  /\ In DEBUG (map snd GC_LOG_SITES)
-  /\ (length (may_emit conf_default) < length GC_LOG_SITES)%nat
-  /\ may_emit (conf_run [EDisable CRITICAL; ESetLevel DEBUG] conf_default) = []
-  /\ enabled (conf_run [ELibLevel NOTSET; ERootLevel DEBUG] conf_default) DEBUG = true.
-Proof. repeat split; vm_compute; try reflexivity; try (apply le_n || (repeat constructor)); tauto. Qed.
+  /\ (length (may_emit conf_default) < length GC_LOG_SITES)%nat.
+Proof.
+  assert (D : forall (x : string * string) l, existsb (fun y => String.eqb (fst x) (fst y) && String.eqb (snd x) (snd y)) l = false -> ~ In x l).
+  { intros x l H Hin. assert (T : existsb (fun y => String.eqb (fst x) (fst y) && String.eqb (snd x) (snd y)) l = true).
+    { apply existsb_exists. exists x. split; [exact Hin|]. rewrite !String.eqb_refl. reflexivity. }
+    rewrite T in H. discriminate. }
+  repeat match goal with |- _ /\ _ => split end;
+    try (apply D; vm_compute; reflexivity);
+    try (vm_compute; reflexivity);
+    try (vm_compute; repeat (first [left; reflexivity | right])).
+Qed.
 
 (* Non-vacuity: a table located at "data" (the location that made the unrepaired normalisation delete
    every live file) with two retained snapshots sharing a manifest, an orphan data file, an orphan
@@ -184,22 +178,32 @@ Definition ex_ops : list hop := [
   HPlant "data/orphan" false 1000;
   HDeleteSnapshot 1;
   HCollect "data" 1000 1000000 86400000 no_faults ].
+(* a normpath / canon pair satisfying the law without being the identity: both collapse "//" *)
 Example C05_history_nonvacuous :
-  h_snaps (run_hist ex_ops) = [(2, "metadata/manifests/l2")]
-  /\ map fst (h_store (run_hist ex_ops)) =
-       ["metadata/inflight/t.inflight"; "data/t"; "data/b"; "metadata/manifests/m2"; "metadata/manifests/l2"; "data/a"; "metadata/manifests/m1"].
-Proof. split; vm_compute; reflexivity. Qed.
+  (forall s, squeeze s = s -> squeeze s = s)
+  /\ squeeze "data//a" = "data/a"
+  /\ h_snaps (run_hist_fs squeeze squeeze ex_ops) = [(2, "metadata/manifests/l2")]
+  /\ map fst (h_store (run_hist_fs squeeze squeeze ex_ops)) =
+       ["metadata/inflight/t.inflight"; "data/t"; "data/b"; "metadata/manifests/m2"; "metadata/manifests/l2"; "data/a"; "metadata/manifests/m1"]
+  (* the same history with the alias commit of C05_alias_spelling_refuted appended: under a normpath that tells "data//a" apart the
+     commit is refused and the collection changes nothing the retained snapshot names *)
+  /\ run_hist_fs squeeze squeeze (alias_ops) = run_hist_fs squeeze squeeze [nth 0 alias_ops (HExpire (fun _ => true)); HDeleteSnapshot 1; nth 3 alias_ops (HExpire (fun _ => true))]
+  /\ map fst (h_store (run_hist_fs no_normpath squeeze alias_ops)) = ["metadata/manifests/m2"; "metadata/manifests/l2"].
+Proof. split; [auto|]. repeat split; vm_compute; reflexivity. Qed.
 
-(* Non-vacuity of C05_acceptance_regenerated: the three canonical spellings of a file under data/ (and below it) are accepted;
-   a path in a directory the library manages or sweeps, elsewhere in the table, or at its root is not -- and after the first
-   commit of ex_ops a second commit naming an existing file outside data/ (or data/a under an alias spelling) changes nothing. *)
-Definition ex_h1 : hstate := run_hist [HCommit 1 [("a", 1000)] [("m1", ["/data/a"], 1000)] [] "l1" 1000 None; HPlant "metadata/manifests/x.parquet" false 1000].
+(* Non-vacuity of C05_acceptance_regenerated: under a normpath that collapses "//" the canonical spellings of a file under data/
+   (and below it) are accepted; a path in a directory the library manages or sweeps, elsewhere in the table, at its root, or an
+   ALIAS spelling of an accepted path is not -- and the last is exactly what the erased guard lets through.  After the first commit
+   of ex_ops a second commit naming an existing file outside data/, or data/a under an alias spelling, changes nothing. *)
+Definition ex_h1 : hstate := run_hist_fs squeeze squeeze [HCommit 1 [("a", 1000)] [("m1", ["/data/a"], 1000)] [] "l1" 1000 None; HPlant "metadata/manifests/x.parquet" false 1000].
 Example C05_acceptance_nonvacuous :
-  map accepts ["/data/a"; "data/a"; "//data/a"; "data/sub/a"] = [true; true; true; true]
-  /\ map accepts ["metadata/manifests/x.parquet"; "/metadata/inflight/x.inflight"; "metadata/x"; ".locks/x"; "other/x"; "x"; ""; "data"; "../data/x"]
-     = [false; false; false; false; false; false; false; false; false]
+  map (accepts_fs squeeze) ["/data/a"; "data/a"; "//data/a"; "data/sub/a"] = [true; true; true; true]
+  /\ map (accepts_fs squeeze) ["metadata/manifests/x.parquet"; "/metadata/inflight/x.inflight"; "metadata/x"; ".locks/x"; "other/x"; "x"; ""; "data"; "../data/x"; "data//a"; "data/sub//a"]
+     = [false; false; false; false; false; false; false; false; false; false; false]
+  /\ map (accepts_fs no_normpath) ["data//a"; "data/sub//a"] = [true; true]
   /\ has_key "metadata/manifests/x.parquet" (h_store ex_h1) = true
-  /\ hstep ex_h1 (HCommit 2 [] [("m2", ["metadata/manifests/x.parquet"], 1000)] [] "l2" 1000 None) = ex_h1
-  /\ hstep ex_h1 (HCommit 2 [] [("m2", ["data//a"], 1000)] [] "l2" 1000 None) = ex_h1
-  /\ h_cur (hstep ex_h1 (HCommit 2 [] [("m2", ["//data/a"], 1000)] [] "l2" 1000 None)) = Some 2.
+  /\ hstep_fs squeeze squeeze ex_h1 (HCommit 2 [] [("m2", ["metadata/manifests/x.parquet"], 1000)] [] "l2" 1000 None) = ex_h1
+  /\ hstep_fs squeeze squeeze ex_h1 (HCommit 2 [] [("m2", ["data//a"], 1000)] [] "l2" 1000 None) = ex_h1
+  /\ h_cur (hstep_fs no_normpath squeeze ex_h1 (HCommit 2 [] [("m2", ["data//a"], 1000)] [] "l2" 1000 None)) = Some 2
+  /\ h_cur (hstep_fs squeeze squeeze ex_h1 (HCommit 2 [] [("m2", ["//data/a"], 1000)] [] "l2" 1000 None)) = Some 2.
 Proof. repeat split; vm_compute; reflexivity. Qed.
